@@ -293,6 +293,29 @@ func nativePretest(p *PropSpec, scratch string) (string, error) {
 		"-modfile="+filepath.Join(scratch, "go.mod"), "-overlay", ovPath, "./"+p.Dir)
 	cmd.Dir = modRoot
 	cmd.Env = append(os.Environ(), "GOFLAGS=-mod=mod", "GOPROXY=off", "GOSUMDB=off", "GOTOOLCHAIN=local", "GOWORK=off")
+	// the legacy-format pretest needs the repo's legacydump helper (a build artefact the repo's own tests
+	// also need, ignored by git): when it has not been built, build it from /repo's source into scratch
+	if ld := filepath.Join(repoDir, "cmd", "legacydump"); p.Pretest == "TestVerifLegacyFormat" {
+		if _, serr := os.Stat(filepath.Join(ld, "legacydump")); serr != nil {
+			bin := filepath.Join(scratch, "legacydump")
+			for _, f := range []string{"go.mod", "go.sum"} {
+				data, rerr := os.ReadFile(filepath.Join(ld, f))
+				if rerr != nil {
+					return "", rerr
+				}
+				if werr := os.WriteFile(filepath.Join(scratch, "legacydump."+f), data, 0o644); werr != nil {
+					return "", werr
+				}
+			}
+			b := exec.Command("go", "build", "-modfile="+filepath.Join(scratch, "legacydump.go.mod"), "-o", bin, "main.go")
+			b.Dir = ld
+			b.Env = cmd.Env
+			if bout, berr := b.CombinedOutput(); berr != nil {
+				return string(bout), fmt.Errorf("building legacydump: %v", berr)
+			}
+			cmd.Env = append(cmd.Env, "VERIF_LEGACYDUMP="+bin)
+		}
+	}
 	out, err := cmd.CombinedOutput()
 	if err == nil && !strings.Contains(string(out), "--- PASS: "+p.Pretest) {
 		err = fmt.Errorf("pretest did not run (skipped?)")
